@@ -117,7 +117,41 @@ def finish_mem(rng, sc):
 
 # ---------------------------------------------------------------- kill_by_memory_size_or_growth
 
+# (ratio string, first-tick multiplier, second-tick multiplier): with usages first*i, second*i on two ticks the
+# moving average is exactly second*i / ratio, i.e. usage / average hits the configured ratio exactly
+EXACT_RATIO = [("1", 16, 4), ("1.0", 16, 4), ("1.25", 176, 60), ("1.5", 80, 36), ("2", 8, 6), ("2.0", 8, 6),
+               ("0.5", 112, 12), ("2.5", 16, 20), ("3.75", 16, 180), ("1.250", 176, 60)]
+
+
+def gen_growth_exact_ratio(rng):
+    """two-tick histories whose growth is exactly on / just beside min_growth_ratio; the size phase is out of reach"""
+    sc = base(rng, "kill_by_memory_size_or_growth", n=rng.choice([2, 3, 3, 4, 5]))
+    sc["nticks"] = 2
+    ratio, m1, m2 = rng.choice(EXACT_RATIO)
+    sc["args"] = {"min_growth_ratio": ratio, "size_threshold": str(rng.choice([100, 101, 150, 200])),
+                  "growing_size_percentile": str(rng.choice([0, 0, 1, 10, 50, 80]))}
+    for s in sc["sibs"]:
+        i = rng.randint(1, 2000)
+        first, second = m1 * i, m2 * i
+        r = rng.random()
+        if r < 0.4:
+            pass                                  # exactly on the ratio
+        elif r < 0.6:
+            second -= 1                           # just below (average moves by less than usage)
+        elif r < 0.75:
+            second += 1
+        elif r < 0.9:
+            second = max(1, second // rng.choice([2, 3]))   # clearly not growing
+        else:
+            first, second = second, first
+        mn, lo = ("0", "0") if rng.random() < 0.8 else prot_fields(rng, second)
+        s["ticks"] = [{"cur": str(first), "min": mn, "low": lo}, {"cur": str(second), "min": mn, "low": lo}]
+    return finish_mem(rng, sc)
+
+
 def gen_growth(rng):
+    if rng.random() < 0.15:
+        return gen_growth_exact_ratio(rng)
     sc = base(rng, "kill_by_memory_size_or_growth")
     n = len(sc["sibs"])
     nt = rng.choice([1, 2, 2, 3, 4, 5])
@@ -422,6 +456,14 @@ def extra_coverage(results):
     }
 
 
+def classify(s, t, v):
+    oc = t.get("outcome", "ok")
+    if oc not in ("ok", "exit0"):
+        import re
+        return "outcome:" + re.sub(r"-?\d+", "N", oc)[:60].strip().replace(" ", "_")
+    return v.get("class") or (v.get("violated") or ["?"])[0]
+
+
 def shrink_candidates(s):
     sibs = s["sibs"]
     if len(sibs) > 1:
@@ -452,14 +494,22 @@ def shrink_candidates(s):
 
 
 def run(tier, seed, replay=None):
-    """generic pipeline; VERIF_KNOWN_EXTRA=<file> additionally reads proposed `known:` lines (used to try
-    /verif/fixes/C09-known.txt before the coordinator merges it into known_findings.txt)"""
+    """generic pipeline, plus two things the generic runner does not do:
+    * VERIF_KNOWN_EXTRA=<file> additionally reads proposed `known:` lines (used to try
+      /verif/fixes/C09-known.txt before the coordinator merges it into known_findings.txt);
+    * core.run_check only looks at model/implementation disagreements when *nothing* failed; C09 has a known
+      finding that fails on every run, so disagreements (accepts = false, holds = true) are handled here: search
+      for a failing input outside the known classes, else report `no-failing-input-found`."""
+    import json
+    import random
+    import re
+    import sys
+    mod = sys.modules[__name__]
     extra = os.environ.get("VERIF_KNOWN_EXTRA")
     if extra and os.path.exists(extra):
         orig = core.load_findings
 
         def patched():
-            import re
             known, fixed = orig()
             for line in open(extra):
                 m = re.match(r"known:\s+property=(\S+)\s+class=(\S+)\s+(.*)", line.strip())
@@ -467,5 +517,53 @@ def run(tier, seed, replay=None):
                     known.append({"property": m.group(1), "class": m.group(2), "text": m.group(3)})
             return known, fixed
         core.load_findings = patched
-    import sys
-    return core.run_check(sys.modules[__name__], tier, seed, replay)
+    rc = core.run_check(mod, tier, seed, replay)
+    if rc != 0:
+        return rc
+    evp = os.path.join(core.VERIF, "evidence", PROP + ".json")
+    ev = json.load(open(evp))
+    cov = ev["coverage"]
+    if not cov.get("model_disagreements") or not cov.get("property_failures"):
+        return rc          # nothing disagreed, or the generic runner already handled the disagreement
+    known = {k["class"] for k in core.load_findings()[0] if k["property"] == PROP}
+    ck = core.Check(mod, tier, seed)
+    exe = core.build_harness(HARNESS, FLAVOUR)
+    if replay:
+        rp = json.load(open(replay))
+        scs = [rp["scenario"]] if "scenario" in rp else rp.get("scenarios", [])
+    else:
+        scs = ck.corpus() + list(gen(random.Random(seed * 1000003 + sum(map(ord, PROP))), tier))
+    for i, s in enumerate(scs):
+        s.setdefault("id", "again-%d" % i)
+    res = ck.execute(exe, scs)
+    disagree = [(s, t, v) for (s, t, v) in res if v.get("holds", True) and not core.bad_outcome(t) and not v.get("accepts", True)]
+    if not disagree:
+        return rc
+    disagree.sort(key=lambda x: len(json.dumps(x[0])))
+    s0, t0, v0 = disagree[0]
+    s0 = ck.shrink(exe, s0, lambda c, tt, vv: vv.get("holds", True) and not core.bad_outcome(tt) and not vv.get("accepts", True))
+    (s0, t0, v0) = ck.execute(exe, [dict(s0, id="shrunk")])[0]
+    found = None
+    if not replay:
+        ext = list(gen(random.Random(seed + 7919), "search"))
+        for i, e in enumerate(ext):
+            e["id"] = "search-%d" % i
+        for (s3, t3, v3) in ck.execute(exe, ext):
+            if ((not v3.get("holds", True)) or core.bad_outcome(t3)) and ck.classify(s3, t3, v3) not in known:
+                found = (s3, t3, v3)
+                break
+    if found:
+        s3, t3, v3 = found
+        rp = ck.write_replay("%s-%d-search.json" % (PROP, seed), {"property": PROP, "kind": "failing-input", "class": ck.classify(s3, t3, v3),
+                                                                  "scenario": s3, "impl_trace": t3, "verdict": v3})
+        print("VIOLATION property=%s replay=%s" % (PROP, rp))
+    else:
+        rp = ck.write_replay("%s-%d-correspondence.json" % (PROP, seed),
+                             {"property": PROP, "kind": "correspondence-broken",
+                              "what": "the Lean model (OomdModel.Rank, engine rank) no longer reproduces the implementation's ranking / statistics "
+                                      "on this input; the property predicate holds on every implementation trace explored outside the known findings",
+                              "count": len(disagree), "scenario": s0, "impl_trace": t0, "verdict": v0})
+        print("VIOLATION property=%s replay=%s no-failing-input-found" % (PROP, rp))
+    ev["violations"] = 1
+    json.dump(ev, open(evp, "w"), indent=1)
+    return 1
